@@ -198,10 +198,49 @@ def check_precedence(repo, rep):
     rep.floor(rid, 8)
 
 
+def check_float_decode_bounded(repo, rep):
+    rid = "C19-R2f"
+    rep.rule(rid, "IEEE guard of the float decode: the affine map ((g-40)(max-min))/79 + min equals max at the last letter only in exact "
+                  "arithmetic; evaluated in doubles it overshoots for many declared bounds ([0.1, 1.0] -> 1.0000000000000002), so the "
+                  "range clause needs the float branch of dna_to_hp to bound its result by the declared min and max with exact "
+                  "operations (min/max, clip or comparisons against h['min'] / h['max'])")
+    fn = repo.func(HELPERS, "dna_to_hp")
+    branches = [n for n in ast.walk(fn) if isinstance(n, ast.If) and "float" in norm(n.test) and "type" in norm(n.test)]
+    if len(branches) != 1:
+        raise AnalysisError(f"dna_to_hp: expected one float branch, found {len(branches)}")
+    body = branches[0].body
+    txt = " ".join(norm(st) for st in body)
+    bounded_hi = bounded_lo = False
+    for st in body:
+        for n in ast.walk(st):
+            if isinstance(n, ast.Call) and SLAST(n) in ("min", "minimum", "clip") and "h['max']" in norm(n):
+                bounded_hi = True
+            if isinstance(n, ast.Call) and SLAST(n) in ("max", "maximum", "clip") and "h['min']" in norm(n):
+                bounded_lo = True
+            if isinstance(n, ast.Compare) and "h['max']" in norm(n):
+                bounded_hi = True
+            if isinstance(n, ast.Compare) and "h['min']" in norm(n):
+                bounded_lo = True
+    # concrete IEEE witness of the unbounded formula (evaluated here, on the documented expression, not on /repo's code)
+    mn, mx = 0.1, 1.0
+    witness = (((119 - 40) * (mx - mn)) / (119 - 40)) + mn
+    if not (bounded_hi and bounded_lo):
+        rep.violation(rid, "float-decode|unbounded", f"dna_to_hp: the float branch (`{txt[:120]}`) does not bound the decoded value by the declared range; in IEEE doubles the last "
+                                                      f"letter of a parameter declared in [{mn}, {mx}] decodes to {witness!r} > max")
+    rep.instance(rid, "float-branch", {"statements": txt[:200], "bounded_above": bounded_hi, "bounded_below": bounded_lo, "ieee_witness_unbounded": repr(witness)})
+    rep.floor(rid, 1)
+
+
+def SLAST(call):
+    f = call.func
+    return f.attr if isinstance(f, ast.Attribute) else (f.id if isinstance(f, ast.Name) else "")
+
+
 def run(repo: Repo, rep, tier: str):
     rep.exhaustive = True
     rep.assume("decoding is evaluated in exact rational arithmetic (round() is round-half-even as in CPython); float representation error of the division is not modelled")
     rep.guarded(check_convert, repo, rep)
+    rep.guarded(check_float_decode_bounded, repo, rep)
     rep.guarded(check_decode, repo, rep)
     rep.guarded(check_precedence, repo, rep)
     rep.undecided_item("int parameters with non-integer bounds (rounding may leave the range)")
